@@ -343,6 +343,10 @@ def load_npoints(h):
     fields = [('sp_points', FieldStub(d_tsp), spv), ('plain_points', FieldStub(d_tp), arr), ('a_scalar', FieldStub(d_t), h.real('s'))]
     if order == 1:
         fields = [fields[1], fields[0], fields[2]]
+    # optional fields that were never set are stored as missing and read as None: the loaded trajectory must say None,
+    # not whatever a fresh trajectory holds by default
+    if h.choice(2) == 1:
+        fields += [('unset_optional_scalar', FieldStub(d_t, required=False), None), ('unset_optional_points', FieldStub(d_tp, required=False), None)]
     h.ctx.named['first_point_field_has_no_species'] = z3.BoolVal(order == 0 and empty_species)
 
     class Fs(Model):
@@ -395,6 +399,9 @@ def load_npoints(h):
         return
     h.ensure('sized-from-its-per-point-fields', to_z3(made[0].npoints) == n)
     h.ensure('every-field-set', set(made[0].vals) == set(values))
+    h.ensure('every-field-gets-the-value-read-from-the-file-unset-ones-none',
+             all(nm in made[0].vals and made[0].vals[nm] is v for nm, v in values.items()),
+             note=repr({nm: (made[0].vals.get(nm, '<not assigned>') if v is None else '...') for nm, v in values.items()}))
 
 
 def later_species(h, expect_accept):
@@ -571,6 +578,29 @@ def replay(payload):
                         problems.append(f'thrust-mode field read back as {dict(g.tm_vals)} instead of {dict(t.tm_vals)}')
             except Exception as e:   # noqa
                 problems.append(f'file species {file_sp}, value species {val_sp}: {type(e).__name__}: {e}')
+        # unset optional fields: stored as missing, must read back as None (not as a fresh trajectory's default)
+        opt_name = 'c03_replay_optional'
+        if not FieldSet.known(opt_name):
+            FieldSet(opt_name,
+                     opt_points=FieldMetadata(dimensions=Dimensions(Dimension.TRAJECTORY, Dimension.POINT), description='', units='', required=False),
+                     opt_scalar=FieldMetadata(dimensions=Dimensions(Dimension.TRAJECTORY), description='', units='', required=False, default=5.0))
+        try:
+            TrajectoryStore.active_in_thread = None
+            path = os.path.join(tmp, 'optional.nc')
+            t = _mk(3, n=4)
+            t.add_fields(FieldSet.from_registry(opt_name))
+            t.opt_points = None
+            t.opt_scalar = None
+            with TrajectoryStore.create(base_file=path) as ts:
+                ts.add(t)
+            TrajectoryStore.active_in_thread = None
+            with TrajectoryStore.open(base_file=path) as r:
+                g = r[0]
+                for name in ('opt_points', 'opt_scalar'):
+                    if getattr(g, name) is not None:
+                        problems.append(f'optional field {name} stored unset (None) reads back as {getattr(g, name)!r}')
+        except Exception as e:   # noqa
+            problems.append(f'unset optional fields: {type(e).__name__}: {e}')
         return dict(reproduced=bool(problems), observed=problems[:6], required='read back equals what was added')
     finally:
         TrajectoryStore.active_in_thread = None
